@@ -150,10 +150,20 @@ func Run(seed uint64, tier, work, driver string, replay []string) *common.Result
 		s.Init()
 		res.Histories++
 		nblocks := r.Range(maxBlocks/2+1, maxBlocks)
+		// the first history of every run is LONG: records that are only written every 10th block (the reward-ledger
+		// root folded into the app hash) exist, and the crash points are taken in the blocks after the 10th
+		long := hi == 0 && replay == nil
+		if long && nblocks < 14 {
+			nblocks = r.Range(12, 14)
+		}
 		var prevHash []byte
 		for b := 0; b < nblocks && s.N.Dead == ""; b++ {
 			var snaps []snap
+			sparse := long && b < 9 // early blocks of the long history: only a few crash points
 			take := func(k int, where string, labels []string) {
+				if sparse && k%5 != 1 {
+					return
+				}
 				d := fmt.Sprintf("%s/snap%d", hw, len(snaps))
 				if err := cpDir(s.N.Root, d); err == nil {
 					snaps = append(snaps, snap{dir: d, k: k, where: where, labels: append([]string(nil), labels...)})
